@@ -82,6 +82,10 @@ CHECKS['C19'] = dict(tech='Hypothesis histories of generation requests interleav
              text='Requests (whole hierarchy / single module, for the top or a sub-block, from a generator created for the target, an ancestor or the system, fresh or reused) are interleaved with clk steps and with requests on other circuits; a twin circuit that is never generated must agree on every wire after every step and the structure (children, ports, wires, sources, sinks) must be unchanged; every answer must equal the first answer to the same (circuit, class, target) up to declaration order, including requests made from different ancestors. Exploration (sampled).',
              note='Trusted: pbt/vlog.py parser for canonicalisation; instance-unique suffixes are stable for live objects.',
              ref='DESIGN.md 2/C19')
+CHECKS['C18'] = dict(tech='Hypothesis generation of structural blocks (every structural catalogue block + netlist wrappers with fan-out, feedback through registers, long forward edges) judged by a validity predicate over the placed-and-routed schematic, with a deterministic call budget for termination',
+             text='The headless Schematic(obj, placeAndRoute=True) of every structural catalogue block (fixed number of generated configurations per block) and of generated netlist wrappers must return within a deterministic budget of profiled function calls, contain exactly one non-virtual symbol per child and per port, each once in the grid with pairwise disjoint boxes, and for every driven wire that is read the nets (with pass-through / feedback markers as junctions) must be connected, start at the real driver pin, end at every real reader pin and touch no pin of another wire. Exploration; one known finding (register reading its own output) is excluded by construction in 95% of the cases and replayed.',
+             note='Trusted: the predicate in pbt/props/c18.py (calibrated on the unchanged tree); bounded-safety reading of "terminates".',
+             ref='DESIGN.md 2/C18')
 NOT_APPLICABLE = {}
 
 def main():
